@@ -4,7 +4,7 @@
    for EVERY input: any snap description i, any installed file name df, any list of input lines. *)
 From Coq Require Import List NArith Bool.
 Import ListNotations.
-Require Import V.lib.Bytes V.models.Desktop V.proofs.DesktopProofs.
+Require Import V.lib.Bytes V.gen.DesktopRegexes V.models.Desktop V.proofs.DesktopProofs.
 Open Scope N_scope.
 
 (* every line of the sanitized file is the inserted X-SnapInstanceName line, or the ${SNAP}-substitution of a line b that
@@ -68,6 +68,15 @@ Theorem C27_tagged : forall (i : dinfo) (df : bytes) (lines : list bytes),
   tagged_ok i (sanitize_lines i df lines) = true.
 Proof. exact tagged. Qed.
 Print Assumptions C27_tagged.
+
+(* the allowlist of isValidDesktopFileLine in the source (regenerated) is the pinned specification list: blank lines,
+   comments, [Desktop Entry] / [Desktop Action x] / [x Shortcut Group] headers and the 24 keys Type Version Name GenericName
+   NoDisplay Comment Icon Hidden OnlyShowIn NotShowIn Exec Terminal Actions MimeType Categories Keywords StartupNotify
+   StartupWMClass PrefersNonDefaultGPU SingleMainWindow X-Ayatana-Desktop-Shortcuts TargetEnvironment (Name, GenericName,
+   Comment, Keywords with an optional [locale]) *)
+Theorem C27_allowlist_pinned : DesktopRegexes.valid_line_alts = spec_line_alts.
+Proof. exact allowlist_pinned. Qed.
+Print Assumptions C27_allowlist_pinned.
 
 (* non-vacuity: an ordinary file (the guard holds) is sanitized as expected: see DesktopProofs.exec_ok_example *)
 Example C27_example : forallb (fun c => no_space c && no_dollar c) [47; 120; 46; 100] = true /\
